@@ -1,6 +1,7 @@
 import EncodingRs.Lemmas.Potential
 import EncodingRs.Lemmas.FamLaws
 import EncodingRs.Model.MaxLen
+import EncodingRs.Lemmas.EncMaxLenVariant
 /-!
 # C07 — worst-case buffer-length queries are sufficient in every reachable state
 
@@ -131,5 +132,36 @@ example : (call userDefinedFam .utf16 () [0x41, 0x80] true .unlimited).res = .in
   · intro l a h
     have : (call userDefinedFam .utf16 () [0x41, 0x80] true .unlimited).res = .inputEmpty := by decide
     rw [this] at h; cases h
+
+/-! ## Encoder queries (all encoder families, both source forms, every state) -/
+
+open EncodingRs.Lemmas.EncPotential EncodingRs.Lemmas.EncMaxLenArith EncodingRs.Lemmas.EncMaxLenVariant in
+/-- `max_buffer_length_from_utf{8,16}_without_replacement`: a destination that large is never
+reported full by `encode_from_utf{8,16}_without_replacement`, in any encoder state (ISO-2022-JP:
+Ascii, Roman, JIS X 0208), for any stop policy. -/
+theorem encoder_raw_sufficient (utf16 : Bool) (v : Gen.Variant) (s : (efamOfVariant v).σ) (src : List Nat)
+    (last : Bool) (budget : Budget) (cap Q : Nat) (hsrc : SrcOK utf16 src)
+    (hq : encMaxNoRepl utf16 v src.length = some Q) (hcap : Q ≤ cap)
+    (hadm : EAdmissible (efamOfVariant v) cap (ecall (efamOfVariant v) utf16 s src last budget)) :
+    (ecall (efamOfVariant v) utf16 s src last budget).res ≠ .outputFull :=
+  enc_raw_sufficient utf16 v s src last budget cap Q hsrc hq hcap hadm
+
+open EncodingRs.Lemmas.EncPotential EncodingRs.Lemmas.EncMaxLenArith EncodingRs.Lemmas.EncMaxLenVariant in
+/-- `max_buffer_length_from_utf{8,16}_if_no_unmappables`: when no character of the input is unmappable
+the with-replacement method never reports `OutputFull` for a destination that large. -/
+theorem encoder_repl_sufficient (utf16 : Bool) (v : Gen.Variant) (s : (efamOfVariant v).σ) (src : List Nat)
+    (last : Bool) (budgets : List Budget) (cap fuel Q : Nat) (t : EReplRes (efamOfVariant v).σ)
+    (hsrc : SrcOK utf16 src)
+    (hq : encMaxIfNoUnmappables utf16 v src.length = some Q) (hcap : Q ≤ cap)
+    (h : encRepl (efamOfVariant v) (canEncodeEverything v) Gen.ncrExtra utf16 last cap fuel s src budgets = some t)
+    (hadm : InnerAdmissible t.inner)
+    (hchars : NoUnmappableChars (efamOfVariant v) (itemsOfSrc utf16 src)) : t.res ≠ .outputFull :=
+  enc_repl_sufficient utf16 v s src last budgets cap fuel Q t hsrc hq hcap h hadm hchars
+
+open EncodingRs.Lemmas.EncMaxLenArith in
+/-- the encoder queries return the exact value or `none`, never a wrapped number -/
+theorem encoder_query_exact (utf16 : Bool) (v : Gen.Variant) (n Q : Nat) (hn : n ≤ usizeMax) :
+    encMaxNoRepl utf16 v n = some Q ↔ (Q = encMaxNat utf16 v n ∧ encMaxNat utf16 v n ≤ usizeMax) :=
+  encMaxNoRepl_eq_some utf16 v n Q hn
 
 end EncodingRs.Thm.C07
